@@ -35,9 +35,19 @@ def output_files_project(rng):
 def invalid_project(rng):
     """Projects with errors: repeated occurrences of one undefined name, several names, errors spread over imported files."""
     kind = rng.choice(["same-name", "several-names", "multi-file", "mixed-classes", "many-imports", "import-clashes", "hard-errors-in-files",
-                       "very-many-undefined", "output-files"])
+                       "very-many-undefined", "output-files", "diamond-clash"])
     files = {}
-    if kind == "very-many-undefined":
+    if kind == "diamond-clash":
+        # a file imported with `*` that brings namespaces the importer already has: several clashes, one report
+        ns = rng.sample(["math", "gfx", "snd", "io", "util"], rng.randrange(2, 5))
+        for x in ns:
+            files["%s.asm" % x] = "%s_f: nop\n" % x
+        imports = "".join('.import * as %s from "%s.asm"\n' % (x, x) for x in ns)
+        lib_order = ns[:]
+        rng.shuffle(lib_order)
+        files["lib.asm"] = "".join('.import * as %s from "%s.asm"\n' % (x, x) for x in lib_order) + "lib_f: nop\n"
+        files["main.asm"] = imports + '.import * from "lib.asm"\nnop\n'
+    elif kind == "very-many-undefined":
         # hundreds of distinct (scope, name, place) uses of undefined names: many names, or a macro with undefined names invoked
         # many times (every invocation has a scope of its own)
         if rng.random() < 0.5:
@@ -113,7 +123,8 @@ def same_stem_project(rng):
     """Source files that share a file stem (same name in two directories, or names that differ only in the extension): what is
     written for them (listings are named after the stem) must not depend on a hash order."""
     n = rng.randrange(2, 5)
-    dirs = rng.sample(["a", "b", "lib", "gfx", "snd/sub"], n) if rng.random() < 0.6 else None
+    # (also directories whose flattened names coincide: lib/io/foo.asm and lib_io/foo.asm)
+    dirs = rng.sample(["a", "b", "lib", "gfx", "snd/sub", "lib/io", "lib_io", "snd_sub"], n) if rng.random() < 0.6 else None
     names = ["%s/foo.asm" % d for d in dirs] if dirs else rng.sample(["foo.asm", "foo.inc", "foo.s", "foo.a65", "foo.mos"], n)
     files = {}
     main = []
